@@ -3,6 +3,8 @@
 // listeners on loopback ephemeral ports with raw harness connections, establishers to an open and to a closed port. External events (peer traffic,
 // raw connects, interrupts) happen while the loop is idle inside epoll_wait; Server API calls happen between run() calls and inside every kind of
 // callback (create / remove self / remove others - preferably ones whose event is already selected in the current poll batch -, write, suspend, interrupt).
+// The accept and connect callbacks additionally act on the client they are being handed, before they return its callback object (freshClientActs: write with
+// forced partial / EAGAIN / hard-error sends, suspend, suspend+write, write+suspend, nothing).
 // Monitors:
 //   timers   : activation k happens at now >= created + k*interval (never early), in non-decreasing due time within one dispatch round, none due is left
 //              when the loop blocks, the poll timeout never reaches beyond the next due time; EINTR and oversleeping are injected
@@ -103,7 +105,7 @@ static int rawAcceptFor(uint16_t lport) {
   for (int tries = 0; tries < 64; ++tries) {
     int fd = accept4(g_rawListen, 0, 0, SOCK_CLOEXEC);
     if (fd < 0) { if (errno == EINTR) continue; if (!su::waitReady(g_rawListen, POLLIN)) return -1; continue; }
-    su::setNonBlock(fd); lingerReset(fd, true);
+    su::setNonBlock(fd); lingerReset(fd, true); su::tcpFast(fd);
     uint16_t pp = peerPort(fd);
     if (pp == lport) return fd;
     g_stashFd.push(fd); g_stashPort.push((int)pp);
@@ -123,6 +125,7 @@ static void drainPeer(ClientM* m) {
   if (m->pfd < 0 || m->peerEof) return;
   for (;;) {
     long r = ns::realRecv(m->pfd, g_tmp, TMPSZ, 0);
+    if (m->origin != 0) su::quickAck(m->pfd);   // TCP_QUICKACK is not sticky
     if (r < 0) { if (errno == EINTR) continue; if (errno == EAGAIN || errno == EWOULDBLOCK) return; m->peerEof = true; return; }
     if (r == 0) { m->peerEof = true; return; }
     u64 off = 0;
@@ -292,7 +295,7 @@ static void rawConnect(ListenerM* m) {
   int fd = socket(AF_INET, SOCK_STREAM | SOCK_CLOEXEC, 0); if (fd < 0) return;
   sockaddr_in a; memset(&a, 0, sizeof a); a.sin_family = AF_INET; a.sin_addr.s_addr = htonl(INADDR_LOOPBACK); a.sin_port = htons(m->port);
   if (connect(fd, (sockaddr*)&a, sizeof a) != 0) { cnt("raw_connect_failed"); close(fd); return; }
-  su::setNonBlock(fd); lingerReset(fd, true);
+  su::setNonBlock(fd); lingerReset(fd, true); su::tcpFast(fd);
   m->pendFd.push(fd); m->pendPort.push((int)localPort(fd));
   cnt("raw_connects"); hist.addf("  raw connection from port %u to listener%d\n", (unsigned)localPort(fd), m->id);
 }
@@ -388,6 +391,7 @@ static void doAct(int a) {
     if (!apiAllowed()) return;
     Vec<ClientM*> s; for (size_t i = 0; i < g_cl.n; ++i) if (g_cl[i]->alive && g_cl[i]->suspended) s.push(g_cl[i]);
     if (!s.n) return; ClientM* c = s[r.below(s.n)];
+    if (c->inSent > c->inRead) cnt("resumes_with_pending_data");
     setctx("Server.Client.resume"); c->c->resume(); c->suspended = false; setctx(ctxBase()); cnt("resumes");
     hist.addf("  [%s] client%d.resume()\n", VN[g_venue], c->id);
     break; }
@@ -420,6 +424,50 @@ static void randomActs(int maxn, bool externalOnly) {
   }
 }
 static void react() { if (g_rng->below(1000) < g_reactPermille) randomActs(2, false); }
+
+// ---------------------------------------------------------------- what onAccepted / onConnected do to the client they are handed, before returning its callback object
+enum FreshAct { F_NONE, F_WRITE, F_SUSPEND, F_SUSPEND_WRITE, F_WRITE_SUSPEND, NFRESH };
+static const char* const FN[] = { "nothing", "write", "suspend", "suspend+write", "write+suspend" };
+static void freshSuspend(ClientM* c) {
+  setctxf("Server.Client.suspend/%s", VN[g_venue]); c->c->suspend(); c->suspended = true;
+  if (!c->c->isSuspended()) fail("Server.Client.isSuspended/after-suspend", "client %d: isSuspended() false after suspend() %s", c->id, VN[g_venue]);
+  setctx(ctxBase()); cnt("suspends");
+  hist.addf("  [%s] client%d.suspend() (fresh client)\n", VN[g_venue], c->id);
+}
+static const char* freshWrite(ClientM* c) {
+  Rng& r = *g_rng;
+  u32 x = (u32)r.below(16); const char* how; long size = 1 + (long)r.below(r.chance(1, 4) ? 20000 : 300);
+  if (x < 6) { c->forceSend = 1; how = "forced-partial"; if (size < 2) size = 2; }
+  else if (x < 9) { c->forceSend = 2; how = "forced-eagain"; }
+  else if (x < 10) { c->forceSend = 3; how = "forced-error"; }
+  else how = "plain";   // decided by the kernel: complete on an empty loopback socket (real-kernel partial sends inside the callback: C13, accept-kernel)
+  clientWrite(c, size);
+  return how;
+}
+static void freshClientActs(ClientM* c, int venue) {
+  Rng& r = *g_rng;
+  const char* cbn = venue == V_ACCEPT ? "onAccepted" : "onConnected";
+  int sv = g_venue; g_venue = venue;
+  u32 x = (u32)r.below(16);
+  int act = x < 4 ? F_NONE : x < 9 ? F_WRITE : x < 12 ? F_SUSPEND : x < 14 ? F_SUSPEND_WRITE : F_WRITE_SUSPEND;
+  const char* how = "-";
+  switch (act) {
+  case F_WRITE: how = freshWrite(c); break;
+  case F_SUSPEND: freshSuspend(c); break;
+  case F_SUSPEND_WRITE: freshSuspend(c); how = freshWrite(c); break;
+  case F_WRITE_SUSPEND: how = freshWrite(c); freshSuspend(c); break;
+  default: break;
+  }
+  char nm[96];
+  if (act == F_WRITE || act == F_SUSPEND_WRITE || act == F_WRITE_SUSPEND) { snprintf(nm, sizeof nm, "writes_in_%s", cbn); cnt(nm); if (c->backlog() > 0) { snprintf(nm, sizeof nm, "writes_in_%s_leaving_backlog", cbn); cnt(nm); } }
+  if (act == F_SUSPEND || act == F_SUSPEND_WRITE || act == F_WRITE_SUSPEND) { snprintf(nm, sizeof nm, "suspends_in_%s", cbn); cnt(nm); }
+  if (act == F_NONE) { snprintf(nm, sizeof nm, "nothing_in_%s", cbn); cnt(nm); }
+  snprintf(nm, sizeof nm, "%s/%s/%s", cbn, FN[act], how); setItem("fresh_client_acts", nm);
+  // the peer talks at once in most scenarios: a client the callback suspended must not hear of it before it is resumed
+  if (r.chance(2, 3)) peerSend(c, 1 + (long)r.below(200));
+  g_venue = sv;
+  g_fp = mix(g_fp, 1100 + (u64)act);
+}
 
 // ---------------------------------------------------------------- callbacks
 static void enterCallback(const char* what, bool alive, const char* kind, int id, bool removedSelected, int removedVenue, const char* extraClass) {
@@ -526,6 +574,7 @@ Server::Client::ICallback* LCB::onAccepted(Server::Client& client, uint32 ip, ui
   if (x == 1) { cnt("accept_removed_then_rejected"); setctx("Server.remove(Client)/in-onAccepted-before-callback"); g_srv->remove(client); setctx("Server.run"); g_garbageFds.push(pfd); hist.add("    -> remove(client) then null callback\n"); return 0; }
   ClientM* c = makeClientModel(client, pfd, 1);
   cnt("clients_accepted"); hist.addf("    -> client%d\n", c->id);
+  freshClientActs(c, V_ACCEPT);
   return &c->cb;
 }
 Server::Client::ICallback* ECB::onConnected(Server::Client& client) {
@@ -545,6 +594,7 @@ Server::Client::ICallback* ECB::onConnected(Server::Client& client) {
   if (g_rng->chance(1, 8)) { cnt("connect_rejected"); g_garbageFds.push(pfd); return 0; }
   ClientM* c = makeClientModel(client, pfd, 2);
   cnt("clients_connected"); hist.addf("    -> client%d\n", c->id);
+  freshClientActs(c, V_CONNECT);
   return &c->cb;
 }
 void ECB::onAbolished() {
@@ -716,6 +766,9 @@ static void endWorld(Rng& r) {
     drainPeer(m);
     if (!m->peerEof && m->peerGot != m->S) fail("Server.Client/peer-stream/incomplete", "client %d: %llu byte(s) handed to the OS, peer received %llu", m->id, (unsigned long long)m->S, (unsigned long long)m->peerGot);
     if (m->transitions != m->onWriteCount) fail("Server.Client.onWrite/count", "client %d: %ld drains, %ld onWrite", m->id, m->transitions, m->onWriteCount);
+    // the scenario ends at an idle point of the loop: nothing that was accepted may still be queued
+    if (!m->backlogDropped && !m->expectClosed && m->S != m->out.accepted) fail("Server.Client/peer-stream/backlog-never-sent", "client %d: accepted %llu byte(s), only %llu handed to the OS when the loop went idle for the last time", m->id, (unsigned long long)m->out.accepted, (unsigned long long)m->S);
+    cnt("streams_verified_end_to_end");
   }
   if (variant == 0) {
     hist.add("teardown: remove everything, random order\n");
